@@ -203,3 +203,19 @@ def wrong_length_rejected(what, n):
             s = RDSystem(net, space)
             s.state = [2.0] * n
     return (not raises(f)) if n == 6 else raises(f)
+
+
+def index_map_rejected(a, b, c, d, e, f):
+    """a coarse-graining map that violates the documented rules is refused by every entry point (3x2x1 grid, environments 0 0 0 1 1 1 and 0 1 0 1 0 1)"""
+    from harness import c16lib
+    from strengths.coarsegrain import coarsegrain_grid, coarsegrain_system, check_index_map_validity
+    im = [a, b, c, d, e, f]
+    for envs in ((0, 0, 0, 1, 1, 1), (0, 1, 0, 1, 0, 1), (1, 1, 0, 0, 1, 0)):
+        if c16lib.valid((3, 2, 1), im, envs):
+            continue
+        sysm = c16lib.system((3, 2, 1), envs)
+        if not raises(lambda: coarsegrain_system(sysm, list(im))):
+            return False
+        if not raises(lambda: coarsegrain_grid(sysm.space, list(im))):
+            return False
+    return True
